@@ -332,7 +332,7 @@ func genCase(t *rapid.T, dirs bool) (Case, []world.Features) {
 	c := Case{Spec: s, Partition: world.GenPartition(t, s), Modes: genModes(t, s)}
 	var feats []world.Features
 	for i := 0; i < 4; i++ {
-		q, f := world.GenQuery(t, s, world.GenOpts{MaxDepth: 4, Directives: dirs, UnionTypenameAlways: rapid.Bool().Draw(t, "utn"), UncoveredUnion: rapid.Bool().Draw(t, "uncov")})
+		q, f := world.GenQuery(t, s, world.GenOpts{MaxDepth: 4, Directives: dirs, UnionTypenameAlways: rapid.Bool().Draw(t, "utn"), UncoveredUnion: rapid.Bool().Draw(t, "uncov"), FragOnUnion: rapid.Bool().Draw(t, "fragonunion")})
 		c.Queries = append(c.Queries, q)
 		c.Texts = append(c.Texts, q.Text())
 		feats = append(feats, f)
